@@ -1,1 +1,178 @@
+(* Property C18 — every io_uring submission completes exactly once with the
+   right result.  This file only states the theorems and closes them with the
+   lemmas of C18_proofs.v; see DESIGN.md section 5 (C18).
+
+   Every theorem is stated for an arbitrary file system `A : fsapi` (state type
+   and synchronous-API effect functions are parameters), every queue depth `d`,
+   every initial file-system state, every history `es` of ring events, every
+   value of the latency arguments of Submit and of the shuffle argument of
+   Next.  `accepted os` / `yields os` are the ghost logs of a history: the
+   submissions accepted by `submit` (with ghost id, user_data, operation, the
+   instant they were scheduled for) and the completions handed out by the
+   completion-queue iterator. *)
 From TV.Lib Require Import Base.
+From Coq Require Import Permutation.
+From TV.Uring Require Import Gen Model Concrete Facts C18_proofs.
+Open Scope N_scope.
+
+(* At any time every accepted submission is in exactly one of in-flight /
+   matured-ready / yielded (the three id lists together are a duplicate-free
+   permutation of the accepted ids), so it is yielded at most once; a yielded
+   completion carries the user_data of its submission and either was cancelled
+   (it completes with -ECANCELED, nothing is executed, no byte is read) or
+   still has its own effect and instant.  For a cancel submission the
+   `faithful` effect is the constant 0 or -ENOENT. *)
+Theorem c18_exactly_once : forall (A : fsapi) d (fs : FS A) es r fs' os,
+  rrun A (new_ring d) fs es = (r, fs', os) ->
+  NoDup (map a_sid (accepted os)) /\
+  Permutation (map c_sid (inflight r) ++ map c_sid (ready r) ++ map y_sid (yields os)) (map a_sid (accepted os)) /\
+  NoDup (map c_sid (inflight r) ++ map c_sid (ready r) ++ map y_sid (yields os)) /\
+  (forall y, In y (yields os) -> exists a, In a (accepted os) /\ a_sid a = y_sid y /\ a_ud a = y_ud y /\
+      ((y_app y = AErr ECANCELED /\ y_res y = ECANCELED /\ y_data y = []) \/
+       (y_when y = a_when a /\ faithful a (y_app y)))).
+Proof. exact exactly_once_lemma. Qed.
+
+(* With a clock that does not run backwards, a completion yielded by an
+   iteration at `now` was scheduled for an instant <= now; and the instant an
+   accepted submission is scheduled for is never before its submit call (it is
+   submit time + the sampled latency). *)
+Theorem c18_not_early : forall (A : fsapi) d (fs : FS A) es r fs' os,
+  mono 0 es -> rrun A (new_ring d) fs es = (r, fs', os) ->
+  Forall2 timely es os /\ Forall2 submitted_at es os.
+Proof.
+  intros A d fs es r fs' os M H. split.
+  - eapply rrun_timely; [|exact M|exact H]. constructor.
+  - eapply rrun_submitted; exact H.
+Qed.
+
+(* The file system changes only through the yielded effects: replaying them on
+   the initial state, once each, in yield order, gives the final state and
+   exactly the results and buffer contents that were reported; and each such
+   effect is the synchronous API applied to the submitted operation (or an
+   error constant without effect: cancelled, rejected flag, cancel request). *)
+Theorem c18_same_as_sync : forall (A : fsapi) d (fs : FS A) es r fs' os,
+  rrun A (new_ring d) fs es = (r, fs', os) ->
+  replay A fs (yields os) = (fs', map (fun y => (y_res y, y_data y)) (yields os)) /\
+  (forall y, In y (yields os) -> exists a, In a (accepted os) /\ a_sid a = y_sid y /\
+    (y_app y = AErr ECANCELED \/
+     (has_unsupported (a_flags a) = false /\ is_io (a_op a) = true /\
+      forall f, exec A f (y_app y) = sync_op A f (a_op a)) \/
+     (exists e, y_app y = AErr e /\ forall f, exec A f (y_app y) = (f, e, [])))).
+Proof.
+  intros A d fs es r fs' os H. split; [eapply rrun_replay; exact H|eapply same_as_sync_history; exact H].
+Qed.
+
+(* In every reachable state the submission queue holds at most `depth`
+   entries, and a push fails iff it holds exactly `depth`; a failed push
+   changes nothing, a successful one appends the entry. *)
+Theorem c18_push_full : forall (A : fsapi) d (fs : FS A) es r fs' os e,
+  rrun A (new_ring d) fs es = (r, fs', os) ->
+  N.of_nat (length (sq r)) <= depth r /\
+  (snd (push r e) = false <-> N.of_nat (length (sq r)) = depth r) /\
+  (snd (push r e) = false -> fst (push r e) = r) /\
+  (snd (push r e) = true -> sq (fst (push r e)) = sq r ++ [e]).
+Proof. exact push_full_lemma. Qed.
+
+(* An entry with a rejected flag is scheduled for the submit instant itself
+   with the constant -EINVAL, which has no effect when executed; and in every
+   history its completion carries -EINVAL (or -ECANCELED if it was cancelled
+   first) and touches no buffer. *)
+Theorem c18_unsupported_flag :
+  (forall r now lats e, has_unsupported (s_flags e) = true ->
+     submit_one r now lats e = (sched (bump_sid r) (mk now (s_ud e) (AErr EINVAL) (nsid r)), lats)) /\
+  (forall (A : fsapi) (fs : FS A), exec A fs (AErr EINVAL) = (fs, EINVAL, [])) /\
+  (forall (A : fsapi) d (fs : FS A) es r fs' os,
+     rrun A (new_ring d) fs es = (r, fs', os) ->
+     forall y a, In y (yields os) -> In a (accepted os) -> a_sid a = y_sid y ->
+     has_unsupported (a_flags a) = true ->
+     (y_res y = EINVAL \/ y_res y = ECANCELED) /\ y_data y = [] /\ exists e, y_app y = AErr e).
+Proof.
+  split; [|split].
+  - intros r now lats e U. unfold submit_one. now rewrite U.
+  - reflexivity.
+  - intros A d fs es r fs' os H. eapply unsupported_history; exact H.
+Qed.
+
+(* Executing a read, write or fsync whose descriptor is not open gives -EBADF
+   and leaves the file system and the buffer alone. *)
+Theorem c18_closed_file : forall (A : fsapi) (fs : FS A) fd off len d,
+  fs_open A fs fd = false ->
+  exec A fs (ARead fd off len) = (fs, EBADF, []) /\
+  exec A fs (AWrite fd off d) = (fs, EBADF, []) /\
+  exec A fs (AFsync fd) = (fs, EBADF, []).
+Proof. intros A fs fd off len d H. cbn. rewrite H. auto. Qed.
+
+(* Crash empties the ring registry and by itself does not touch the file
+   system.  From then on every event addressed to a ring that existed before
+   the crash is inert: its observation is "no such ring" (push refused, submit
+   error, nothing visible, nothing yielded) and deleting all such events from
+   the rest of the history leaves the final state - file system included -
+   unchanged.  Ring ids are never reused, so nothing submitted before the crash
+   ever completes or takes effect. *)
+Theorem c18_crash_forgets : forall (A : fsapi) (fs : FS A) es1 es2,
+  let h := fst (hrun A (hinit A fs) es1) in
+  let hc := fst (hstep A h HCrash) in
+  rings hc = [] /\ hfs hc = hfs h /\
+  fst (hrun A hc es2) = fst (hrun A hc (filter (fun e => negb (below A (nrid h) e)) es2)) /\
+  Forall2 (fun e o => below A (nrid h) e = true -> o = ONone \/ exists rid ev, o = OGone rid ev)
+          es2 (snd (hrun A hc es2)).
+Proof. exact crash_forgets_lemma. Qed.
+
+(* The shuffle argument reaches every permutation of a batch with distinct
+   user_data, and is always a permutation. *)
+Theorem c18_shuffle_complete :
+  (forall order batch, Permutation (reorder order batch) batch) /\
+  (forall batch target, Permutation target batch -> NoDup (map c_ud batch) ->
+     reorder (map c_ud target) batch = target).
+Proof. split; [exact reorder_perm|exact reorder_onto]. Qed.
+
+(* Non-vacuity on the concrete byte-array file system: a write and a read are
+   submitted, mature and are yielded in the order chosen by the shuffle
+   argument (the read sees the write or not accordingly); cancelling the write
+   instead leaves the file empty; nothing is visible one tick early; a crash
+   in between leaves the file empty and the old ring dead. *)
+Definition wr : sqe := {| s_op := Write 0 1 [5; 6]; s_ud := 11; s_flags := 0 |}.
+Definition rd : sqe := {| s_op := Read 0 0 4; s_ud := 12; s_flags := 0 |}.
+Definition cn : sqe := {| s_op := Cancel 11; s_ud := 13; s_flags := 0 |}.
+Definition pre : list (hev CFS) :=
+  [CFs (x_open 0 0); CNew 2; CRing 0 (Push wr); CRing 0 (Push rd); CRing 0 (Push rd); CRing 0 (Submit 0 [100; 100])].
+Definition drain (t : N) (order : list N) : list (hev CFS) :=
+  [CRing 0 CqNew; CRing 0 (Sync t); CRing 0 (Next t order); CRing 0 (Next t order); CRing 0 (Next t order); CFs (x_dump 0)].
+Example c18_nonvacuous :
+  crun 1 (pre ++ drain 100 [11; 12]) =
+    [(5, [0%Z], []); (0, [0%Z], []); (1, [1%Z], []); (1, [1%Z], []); (1, [0%Z], []); (2, [2%Z], []);
+     (6, [], []); (3, [2%Z], []); (4, [11%Z; 2%Z], []); (4, [12%Z; 3%Z], [0; 5; 6]); (4, [], []); (5, [3%Z], [0; 5; 6])] /\
+  crun 1 (pre ++ drain 100 [12; 11]) =
+    [(5, [0%Z], []); (0, [0%Z], []); (1, [1%Z], []); (1, [1%Z], []); (1, [0%Z], []); (2, [2%Z], []);
+     (6, [], []); (3, [2%Z], []); (4, [12%Z; 0%Z], []); (4, [11%Z; 2%Z], []); (4, [], []); (5, [3%Z], [0; 5; 6])] /\
+  crun 1 (pre ++ drain 99 [11; 12]) =
+    [(5, [0%Z], []); (0, [0%Z], []); (1, [1%Z], []); (1, [1%Z], []); (1, [0%Z], []); (2, [2%Z], []);
+     (6, [], []); (3, [0%Z], []); (4, [], []); (4, [], []); (4, [], []); (5, [0%Z], [])] /\
+  crun 1 (pre ++ [CRing 0 (Push cn); CRing 0 (Submit 50 [])] ++ drain 100 [11; 13; 12]) =
+    [(5, [0%Z], []); (0, [0%Z], []); (1, [1%Z], []); (1, [1%Z], []); (1, [0%Z], []); (2, [2%Z], []);
+     (1, [1%Z], []); (2, [1%Z], []);
+     (6, [], []); (3, [3%Z], []); (4, [11%Z; (-125)%Z], []); (4, [13%Z; 0%Z], []); (4, [12%Z; 0%Z], []); (5, [0%Z], [])] /\
+  crun 1 (pre ++ [CCrash; CFs x_crash] ++ drain 100 [11; 12]) =
+    [(5, [0%Z], []); (0, [0%Z], []); (1, [1%Z], []); (1, [1%Z], []); (1, [0%Z], []); (2, [2%Z], []);
+     (6, [], []); (5, [0%Z], []);
+     (6, [], []); (3, [0%Z], []); (4, [], []); (4, [], []); (4, [], []); (5, [0%Z], [])].
+Proof. repeat split; vm_compute; reflexivity. Qed.
+
+Check c18_exactly_once : forall (A : fsapi) d (fs : FS A) es r fs' os,
+  rrun A (new_ring d) fs es = (r, fs', os) ->
+  NoDup (map a_sid (accepted os)) /\
+  Permutation (map c_sid (inflight r) ++ map c_sid (ready r) ++ map y_sid (yields os)) (map a_sid (accepted os)) /\
+  NoDup (map c_sid (inflight r) ++ map c_sid (ready r) ++ map y_sid (yields os)) /\
+  (forall y, In y (yields os) -> exists a, In a (accepted os) /\ a_sid a = y_sid y /\ a_ud a = y_ud y /\
+      ((y_app y = AErr ECANCELED /\ y_res y = ECANCELED /\ y_data y = []) \/
+       (y_when y = a_when a /\ faithful a (y_app y)))).
+
+Print Assumptions c18_exactly_once.
+Print Assumptions c18_not_early.
+Print Assumptions c18_same_as_sync.
+Print Assumptions c18_push_full.
+Print Assumptions c18_unsupported_flag.
+Print Assumptions c18_closed_file.
+Print Assumptions c18_crash_forgets.
+Print Assumptions c18_shuffle_complete.
+Print Assumptions c18_nonvacuous.
